@@ -1,8 +1,13 @@
 package props
 
 import (
+	"bytes"
+	"context"
+	"encoding/json"
 	"fmt"
 	"math/rand"
+	"os"
+	"os/exec"
 	"strings"
 	"sync"
 	"sync/atomic"
@@ -29,8 +34,8 @@ func init() {
 
 // concurrentRun starts a REAL batch.Writer (own goroutine, real tickers) and adds operations from several
 // goroutines while CAS / anchor faults are injected at random; then faults stop and the run waits for rest.
-func concurrentRun(c *ev.Ctx, f *wr.Factory, rng *rand.Rand, nDID, adders, perAdder int) (*wr.Rig, bool) {
-	rig := wr.NewRig([]uint64{0, 5}, c16MaxCount)
+func concurrentRun(c *ev.Ctx, f *wr.Factory, rng *rand.Rand, nDID, adders, perAdder int, maxFirst, maxLater uint) (*wr.Rig, bool) {
+	rig := wr.NewRigMax([]uint64{0, 5}, maxFirst, maxLater)
 	currentRig.Store(rig)
 	var faultsOn int32 = 1
 	var frng = rand.New(rand.NewSource(rng.Int63()))
@@ -146,50 +151,68 @@ func C16(c *ev.Ctx) {
 	if err != nil {
 		ev.Fatal("factory: %v", err)
 	}
-	var all strings.Builder
 	total := 0
-	var infos []runInfo
-	for i := 0; i < runs; i++ {
-		rig, rest := concurrentRun(c, f, rng, 3+rng.Intn(3), 2+rng.Intn(4), 4+rng.Intn(5))
-		evs := rig.Snapshot()
-		start := total
-		all.WriteString(rig.NDJSON())
-		all.WriteString(`{"ev":"Reset"}` + "\n")
-		total += len(evs) + 1
-		infos = append(infos, runInfo{start, total, rest})
-		if !rest {
-			c.Note("concurrent run %d did not come to rest within 4 s of fault-free rounds; remaining runs skipped", i)
-			runs = i + 1
-			break
-		}
-		if i < 2 {
-			n := len(evs)
-			if n > 25 {
-				n = 25
+	// two groups: both protocol versions with the same maximum operation count, and different maxima (2 for version 0,
+	// 4 for the later, current version: a batch is bounded by the maximum of the version its operations were queued under)
+	for _, g := range []struct {
+		first, later uint
+		cfg          string
+	}{{c16MaxCount, c16MaxCount, "WriterPropTrace.cfg"}, {2, 4, "WriterPropTraceV.cfg"}} {
+		var all strings.Builder
+		gtotal := 0
+		var infos []runInfo
+		n := runs / 2
+		for i := 0; i < n; i++ {
+			rig, rest := concurrentRun(c, f, rng, 3+rng.Intn(3), 2+rng.Intn(4), 4+rng.Intn(5), g.first, g.later)
+			evs := rig.Snapshot()
+			start := gtotal
+			all.WriteString(rig.NDJSON())
+			all.WriteString(`{"ev":"Reset"}` + "\n")
+			gtotal += len(evs) + 1
+			infos = append(infos, runInfo{start, gtotal, rest})
+			if !rest {
+				c.Note("concurrent run %d did not come to rest within 4 s of fault-free rounds; remaining runs skipped", i)
+				n = i + 1
+				break
 			}
-			c.AddSample(map[string]interface{}{"kind": "concurrent real run (first events)", "events": evs[:n], "total_events": len(evs)})
+			if i < 1 {
+				k := len(evs)
+				if k > 25 {
+					k = 25
+				}
+				c.AddSample(map[string]interface{}{"kind": "concurrent real run (first events)", "max_operation_count_v0_v5": []uint{g.first, g.later}, "events": evs[:k], "total_events": len(evs)})
+			}
+		}
+		res, ok := validateWriterTracesCfg(c, all.String(), g.cfg)
+		c.Cov.States += res.Distinct
+		c.Cov.Transitions += res.Generated
+		c.Cov.CheckerCmd = res.Cmd
+		c.Cov.TracesValidatedAgainstImpl += int64(n)
+		c.Cov.Evaluations += int64(gtotal)
+		c.Cov.DistinctNontrivial += int64(n)
+		total += gtotal
+		if !ok {
+			// locate the failing run by bisection on prefixes of whole runs
+			bad := locateBadRunCfg(c, all.String(), infos2bounds(infos), g.cfg)
+			lines := strings.Split(all.String(), "\n")
+			var tr []string
+			if bad >= 0 {
+				tr = lines[infos[bad].start:infos[bad].end]
+			}
+			c.Violation("real-writer-trace-rejected", map[string]interface{}{"run": bad, "max_operation_count_v0_v5": []uint{g.first, g.later}, "trace": tr, "tlc": lastN(res.Output, 30),
+				"note": "the recorded execution of the real batch writer is not a behaviour of WriterProp (FIFO prefix cut, batch bounds per protocol version, conservation, nack to head, at rest after fault-free rounds)"})
 		}
 	}
-	res, ok := validateWriterTraces(c, all.String(), total)
-	c.Cov.States += res.Distinct
-	c.Cov.Transitions += res.Generated
-	c.Cov.CheckerCmd = res.Cmd
-	c.Cov.TracesValidatedAgainstImpl += int64(runs)
-	c.Cov.Evaluations += int64(total)
-	c.Cov.DistinctNontrivial += int64(runs)
-	if !ok {
-		// locate the failing run by bisection on prefixes of whole runs
-		bad := locateBadRun(c, all.String(), infos2bounds(infos))
-		lines := strings.Split(all.String(), "\n")
-		var tr []string
-		if bad >= 0 {
-			tr = lines[infos[bad].start:infos[bad].end]
-		}
-		c.Violation("real-writer-trace-rejected", map[string]interface{}{"run": bad, "trace": tr, "tlc": lastN(res.Output, 30),
-			"note": "the recorded execution of the real batch writer is not a behaviour of WriterProp (FIFO prefix cut, batch bounds, conservation, nack to head, at rest after fault-free rounds)"})
-	}
-	c.Cov.Rule = "each trace is one run of the real batch.Writer (Start()ed, real tickers 2 ms / 6 ms) with 2-5 concurrently adding goroutines, two protocol versions (0 and 5), expired operations, repeated suffixes and random CAS / anchor-write failures (12%), followed by fault-free rounds until rest; TLC validates the concatenated NDJSON traces against WriterProp with Conservation, BatchBounds, ExactlyOnceAtRest as invariants."
+	c.Cov.Rule = "each trace is one run of the real batch.Writer (Start()ed, real tickers 2 ms / 6 ms) with 2-5 concurrently adding goroutines, two protocol versions (0 and 5; one group of runs with the same maximum operation count for both, one with 2 / 4), expired operations, repeated suffixes and random CAS / anchor-write failures (12%), followed by fault-free rounds until rest; TLC validates the concatenated NDJSON traces against WriterProp with Conservation, BatchBounds, ExactlyOnceAtRest as invariants."
 	c.Cov.Extra["events"] = total
+	// truly parallel submissions (the traced runs serialise every Add under the trace mutex, which would hide a
+	// queue that is not safe for concurrent Add)
+	rounds := 2
+	if c.Tier == "thorough" {
+		rounds = 10
+	}
+	stressConcurrentAdds(c, rounds)
+	c.Cov.Rule += " Plus stress rounds in child processes: 16 goroutines x 250 Writer.Add calls at full speed on the real MemQueue with NO serialisation by the harness; every accepted operation must be in exactly one anchored batch, no batch above the maximum (a crash of the writer process is a violation)."
 	c.Finish("model_checking")
 }
 
@@ -235,3 +258,111 @@ func lastN(s string, n int) string {
 }
 
 var _ = fmt.Sprintf
+
+// StressChild (sidever stress-child <seed>): 16 goroutines submit 250 distinct creates each to a REAL batch.Writer over
+// the REAL MemQueue at full speed, with no serialisation by the harness; prints the final accounting as JSON.  Runs in
+// a child process because a corrupted queue makes the library's writer goroutine panic, which nothing can recover.
+func StressChild(seed int64) {
+	const adders, perAdder = 16, 250
+	f, err := wr.NewFactory(adders*perAdder, KeyTypeForSeed(seed))
+	if err != nil {
+		fmt.Fprintln(os.Stderr, "factory:", err)
+		os.Exit(3)
+	}
+	rig := wr.NewRig([]uint64{0}, 25)
+	rig.Unserialised = true
+	currentRig.Store((*wr.Rig)(nil))
+	var metas []*wr.OpMeta
+	for d := 1; d <= adders*perAdder; d++ {
+		q, err := f.Op(d, "C", false)
+		if err != nil {
+			fmt.Fprintln(os.Stderr, "op:", err)
+			os.Exit(3)
+		}
+		metas = append(metas, rig.Register(q, d, 0, false))
+	}
+	w, err := batch.New("did:sidetree", rig, batch.WithBatchTimeout(20*time.Millisecond), batch.WithMonitorInterval(2*time.Millisecond))
+	if err != nil {
+		fmt.Fprintln(os.Stderr, "batch.New:", err)
+		os.Exit(3)
+	}
+	w.Start()
+	start := make(chan struct{})
+	var wg sync.WaitGroup
+	for a := 0; a < adders; a++ {
+		wg.Add(1)
+		go func(a int) {
+			defer wg.Done()
+			<-start
+			for k := 0; k < perAdder; k++ {
+				m := metas[a*perAdder+k]
+				_ = w.Add(m.Q, m.Ver)
+			}
+		}(a)
+	}
+	close(start)
+	wg.Wait()
+	deadline := time.Now().Add(30 * time.Second)
+	rest := false
+	for time.Now().Before(deadline) {
+		if rig.AtRest() {
+			rest = true
+			break
+		}
+		time.Sleep(5 * time.Millisecond)
+	}
+	// a lost operation never comes to rest: give the writer a few more timeout rounds, then account
+	if !rest {
+		time.Sleep(200 * time.Millisecond)
+	}
+	w.Stop()
+	time.Sleep(30 * time.Millisecond)
+	out, _ := json.Marshal(rig.Accounting(adders*perAdder, rest))
+	fmt.Println("STRESS " + string(out))
+}
+
+// stressConcurrentAdds runs StressChild in child processes and judges the accounting.
+func stressConcurrentAdds(c *ev.Ctx, rounds int) {
+	exe, err := os.Executable()
+	if err != nil {
+		ev.Fatal("executable: %v", err)
+	}
+	ok := 0
+	for r := 0; r < rounds; r++ {
+		ctx, cancel := context.WithTimeout(context.Background(), 120*time.Second)
+		cmd := exec.CommandContext(ctx, exe, "stress-child", fmt.Sprint(c.Seed+int64(r)))
+		var stdout, stderr bytes.Buffer
+		cmd.Stdout, cmd.Stderr = &stdout, &stderr
+		runErr := cmd.Run()
+		cancel()
+		var res wr.StressResult
+		found := false
+		for _, l := range strings.Split(stdout.String(), "\n") {
+			if strings.HasPrefix(l, "STRESS ") && json.Unmarshal([]byte(l[7:]), &res) == nil {
+				found = true
+			}
+		}
+		tail := stderr.String()
+		if len(tail) > 1500 {
+			tail = tail[len(tail)-1500:]
+		}
+		switch {
+		case !found && ctx.Err() != nil:
+			c.Note("stress round %d: child did not finish within 120 s (inconclusive)", r)
+		case !found && cmd.ProcessState != nil && cmd.ProcessState.ExitCode() == 3:
+			ev.Fatal("stress child could not be set up: %s", tail)
+		case !found:
+			c.Violation("writer-crashes-under-parallel-submissions", map[string]interface{}{"round": r, "error": fmt.Sprint(runErr), "stderr_tail": tail,
+				"note": "16 goroutines x 250 Writer.Add calls on the real MemQueue; the writer process died"})
+		case len(res.Lost) > 0 || len(res.Duplicated) > 0 || res.Oversize > 0 || res.Accepted != res.Submitted:
+			c.Violation("parallel-submissions-not-anchored-exactly-once", map[string]interface{}{"round": r, "accounting": res,
+				"note": "every Writer.Add returned nil; lost = accepted but in no anchored batch"})
+		case !res.AtRest:
+			c.Note("stress round %d: not at rest within 30 s (inconclusive)", r)
+		default:
+			ok++
+		}
+		c.Cov.Evaluations += int64(res.Submitted)
+	}
+	c.Cov.Extra["stress_rounds_16x250_parallel_adds_exactly_once"] = ok
+}
